@@ -95,7 +95,12 @@ def _kb_jwt_sym(F, r3, kfn):
                             args = x[2]
                             if len(args) == 2 and args[0] == tmpl and args[1][:1] == ("list",) and len(args[1]) == 3:
                                 a0, a1 = args[1][1], args[1][2]
-                                good = SR.derives(a0, SR.fld("jwt", base=SDJ)) and SR.derives(a1, SR.fld("disclosures", base=SDJ)) and ("lit", "~") in list(sym.subterms(a1)) and "join" in sym.fmt(a1)
+                                DISC = SR.fld("disclosures", base=SDJ)
+                                joins = [z for z in sym.subterms(a1) if isinstance(z, tuple) and z[:1] == ("call",) and z[1].endswith("::join")]
+                                # every disclosure, in the order presented, exactly once each as presented: join("~") directly over the list
+                                exact = len(joins) == 1 and len(joins[0][2]) == 2 and joins[0][2][0] in (("iter", DISC), DISC) and joins[0][2][1] == ("lit", "~")
+                                plain0 = all(not (isinstance(z, tuple) and z[:1] == ("call",) and not z[1].endswith("Argument::new_display")) for z in sym.subterms(a0))
+                                good = SR.derives(a0, SR.fld("jwt", base=SDJ)) and plain0 and exact
                         r3.require(good, (kfn, "hash-payload"), "the digest is not computed over `{sd_jwt.jwt}~{disclosures joined by ~}~`: %s" % sym.fmt(pt)[:200])
                     # nonce / aud
                     for opt, err in (("nonce", "InvalidNonce"), ("aud", "AudianceMismatch")):
@@ -214,6 +219,7 @@ def run(F, R, tier):
         for k_ in range(12):
             r2.site("verify_signature obligation %d on %d accepting path(s)" % (k_ + 1, n))
         r2.require(n > 0 or not tab.paths, (fn, "no-success"), "verify_signature has no accepting path")
+        L.depends_on(r2, F, tier, ["C02-R3"], "issuer key, kid, scope and nonce rules of the SD-JWT are those of parse_jwk")
     fn = SV + "::validate_credential"
     h = F.hir(fn)
     if r2.anchor(h, fn):
